@@ -50,7 +50,13 @@ CHECKS["C04"] = ("bitshare", "exploration",
    "Trusted: harness and its Vec<bool> model. Arguments stay within length + small slack (overflowing positions are C06/C08's business). Codec values (from_int) are not asserted, only carried.",
    "DESIGN.md §5 C04")
 
-PENDING = {k: "check under construction in this session (claimed in DESIGN.md); listed here only until its engine lands" for k in ["C03","C06","C08"]}
+CHECKS["C03"] = ("clones", "exploration",
+   "deterministic simulation of a clone tree: up to six replicas share reference-counted storage; a seeded scheduler interleaves clone (Clone and c_api::xeh_snapshot) / drop / submit / single-instruction step / reverse-step / save / rollback / private-source actions; invariant after every event: every other replica and every saved snapshot renders unchanged; history check: replicas that reach the same script point agree on result, output and state",
+   "Seeded exploration of who-acts-when over replicas that follow one script at their own pace, down to single VM instructions, with siblings dropped at arbitrary instants so that survivors flip onto the unique-owner paths. Snapshot immutability is checked after every action against a full rendering (machine state, contexts, flows, code and dictionary beyond boot, pending output) plus a probe of host objects; determinism of re-running is checked by comparing every replica that reaches a script point with the first one that got there.",
+   "Trusted: harness, verif_hooks renderings (values by content). Output printed twice after reverse steps is not compared (reverse stepping does not un-print; C02 excludes output). The d2 canvas (Cell::AnyRc) being shared between clones is a listed known finding, classified separately so that it suppresses nothing else. The words the property excludes are not generated.",
+   "DESIGN.md §5 C03")
+
+PENDING = {k: "check under construction in this session (claimed in DESIGN.md); listed here only until its engine lands" for k in ["C06","C08"]}
 
 def main():
     checks = []
